@@ -6,6 +6,7 @@
 #define NATIVE 1
 #define CONVT(p) (*(p))
 #define CTORT(w, v) (*(w) = (v))
+/* contracts of the templates must precede their (static inline) definitions */
 #include "x_rw_tmpl.inc"
 #include "x_one__int8_t.inc"
 #include "x_reader_str.c"
@@ -30,3 +31,6 @@ void h_bitw_size(void) { BitWriter* w; IN_STATE; BitWriter_size(w); VERIF_REACH(
 void h_bitw_write(void) { BitWriter* w; IN_STATE; IN_BITS; bool in_v; BitWriter_write(w, in_v); VERIF_REACH(); }
 void h_bitr_pread(void) { BitReader* r; IN_STATE; IN_BITS; size_t in_offset; uint8_t in_size; BitReader_pread(r, in_offset, in_size); VERIF_REACH(); }
 void h_bitr_read(void) { BitReader* r; IN_STATE; IN_BITS; uint8_t in_size; bool in_advance; BitReader_read(r, in_size, in_advance); VERIF_REACH(); }
+
+void h_tmpl_get(void) { StringReader* r; IN_STATE; size_t in_size; bool in_advance; StringReader_get__int8_t(r, in_advance, in_size); VERIF_REACH(); }
+void h_tmpl_pget(void) { StringReader* r; IN_STATE; size_t in_offset, in_size; StringReader_pget__int8_t(r, in_offset, in_size); VERIF_REACH(); }
